@@ -245,7 +245,7 @@ def run(chk):
     drv = Driver()
     rng = chk.rng
     # death-scan model vs itself is proved; tie: replay a few canonical interleavings through the driver as sanity (samples only)
-    canon = ['A,r,r,D,X,r,r,r', 'A,K,r,r,r,r,r', 'A,r,r,D,X,R,A,r,r,r', 'A,D,X,R,r,r,A,r,r,r', 'A,r,D,r,X,r,r']
+    canon = ['S,A,r,r,D,X,r,r,r,r', 'S,A,K,r,r,r,r,r,r', 'S,A,r,r,D,X,R,A,r,r,r', 'S,A,D,X,R,r,r,A,r,r,r,S', 'S,A,r,D,r,X,r,r,r', 'A,r,r,r']
     for line, m in zip(canon, drv.run(['dscan ev=' + c for c in canon])):
         chk.count('death-scan model sanity (driver)', key=line, nontrivial=True, sample={'events': line, 'model': m})
         exp_kill = 'K' in line
